@@ -186,6 +186,64 @@ def run(chk: Check) -> None:
     else:
         r2.violation("write_cache: data_mtime = manager.getmtime(data_file) read after the data write", wc.loc(), "the recorded data_mtime is not the mtime of the data file as left by this write")
 
+    # ---------------- R04.6
+    r6 = chk.rule("R04.6", "write_cache skips the data write only after examining the stored data record itself: the old interface hash comes from a meta record that validate_meta may have abandoned (a run killed between the data and meta writes), so hash equality alone proves nothing about the stored data", floor=2)
+
+    def examines(c: ast.Call) -> bool:
+        if not any("data_file" == norm(a) for a in c.args):
+            return False
+        if call_name(c) == "read":
+            return True
+        callee = ix.functions.get("mypy.build." + (call_name(c) or ""))
+        if callee is None:
+            return False
+        pnames = [a.arg for a in callee.params]
+        idx = [i for i, a in enumerate(c.args) if norm(a) == "data_file"]
+        pn = pnames[idx[0]] if idx and idx[0] < len(pnames) else None
+        return any(isinstance(x, ast.Call) and call_name(x) == "read" and any(norm(a) == pn for a in x.args) for x in ast.walk(callee.node))
+
+    ex_nodes = [n for n in g.nodes if any(examines(c) for c in n.calls())]
+    key = "write_cache: every path to the CacheMeta passes the data write or a read of the stored data record"
+    guard_vars = set()
+    for w_ in wr:
+        cur = w_.stmt
+        pr_ = wc.module.parents()
+        while cur is not None and cur is not wc.node:
+            p_ = pr_.get(cur)
+            if isinstance(p_, ast.If) and isinstance(p_.test, ast.Name) and any(cur is x for x in p_.body):
+                guard_vars.add(p_.test.id)
+            cur = p_
+    passes = bool(wr) and any(not any(c in g.reachable_flag(g.entry, wr + ex_nodes, gv, labels_excluded=("exc",)) for c in ctor) for gv in (sorted(guard_vars) or ["-"]))
+    if passes:
+        r6.ok(key, wc.loc(ctor[0].stmt), f"{len(ex_nodes)} examining site(s)")
+    else:
+        w = g.witness(g.entry, ctor, wr + ex_nodes, labels_excluded=("exc",)) if hasattr(g, "witness") else None
+        r6.violation(key, wc.loc(ctor[0].stmt), "a meta record is produced for a data record that was neither written nor looked at: after a run killed between the data write and the meta write (then the edit reverted) the recomputed hash equals the abandoned meta's hash, the write is skipped, and the new meta validates the other version's data file", witness=g.fmt_path(w or [], wc.module.relpath))
+    # the decision to write is taken from that examination
+    par4 = wc.module.parents()
+    decided = False
+    for w_ in wr:
+        p_ = par4.get(w_.stmt) if w_.stmt is not None else None
+        tests = []
+        cur = w_.stmt
+        while cur is not None and cur is not wc.node:
+            p_ = par4.get(cur)
+            if isinstance(p_, ast.If) and any(cur is x for x in p_.body):
+                tests.append(p_.test)
+            cur = p_
+        names = {x.id for t_ in tests for x in ast.walk(t_) if isinstance(x, ast.Name)}
+        for nm in names:
+            asg = [a for a in ast.walk(wc.node) if isinstance(a, ast.Assign) and norm(a.targets[0]) == nm]
+            if asg and all((isinstance(a.value, ast.Constant) and a.value.value is True) or any(isinstance(c, ast.Call) and examines(c) for c in ast.walk(a.value)) for a in asg) and any(not isinstance(a.value, ast.Constant) for a in asg):
+                neg = [a for a in asg if not isinstance(a.value, ast.Constant)]
+                if all(isinstance(a.value, ast.UnaryOp) and isinstance(a.value.op, ast.Not) for a in neg):
+                    decided = True
+    key = "write_cache: the write is skipped only when the examination says the stored bytes equal the new bytes"
+    if decided:
+        r6.ok(key, wc.loc(wr[0].stmt))
+    else:
+        r6.violation(key, wc.loc(wr[0].stmt) if wr else wc.loc(), "the condition guarding the data write is not derived from a comparison with the stored data record")
+
     # ---------------- R04.3 / R04.4
     r3 = chk.rule("R04.3", "per module: data write before meta write, meta comes from write_cache's result and is skipped when None, dep_hashes assigned before the meta write, a commit follows every write group", floor=8)
     r4 = chk.rule("R04.4", "a meta record with a possibly new source hash becomes durable only after the previous meta_ex was invalidated (or the new meta_ex written); a refresh for an unchanged source is exempt", floor=3)
